@@ -23,3 +23,9 @@ Definition close_opt (m : option (list Qc)) (o : option (list Q)) (tol : Q) : bo
   | None, None => true
   | _, _ => false
   end.
+Fixpoint close_vec_tols (m : list Qc) (o : list Q) (tols : list Q) : bool :=
+  match m, o, tols with
+  | [], [], [] => true
+  | a :: m', b :: o', t :: tols' => Qle_bool (Qabs (this a - b)) t && close_vec_tols m' o' tols'
+  | _, _, _ => false
+  end.
